@@ -189,10 +189,10 @@ def check_pbc(ck):
     import pyqmc.pbc.twists as twists
     from pyqmc.wf.slater import Slater
     from pyqmc.configurations.coord import PeriodicConfigs
-    plans = [(wfzoo.h_pbc_k3, np.diag([3, 1, 1])), (wfzoo.h_pbc_k3, np.eye(3)), (wfzoo.h_pbc, np.diag([2, 1, 1])), (wfzoo.h_pbc_tri, np.array([[1, 1, 0], [-1, 1, 0], [0, 0, 1]])), (wfzoo.diamond, np.eye(3)),
+    plans = [(wfzoo.h_pbc_k3, np.diag([3, 1, 1])), (wfzoo.h_pbc_k3, np.array([[1, 1, 0], [0, 1, 0], [0, 0, 1]])), (wfzoo.h_pbc_k3, np.eye(3)), (wfzoo.h_pbc, np.diag([2, 1, 1])), (wfzoo.h_pbc_tri, np.array([[1, 1, 0], [-1, 1, 0], [0, 0, 1]])), (wfzoo.diamond, np.eye(3)),
              (wfzoo.h_pbc, np.ones((3, 3)) - 2 * np.eye(3)), (wfzoo.h_pbc_tri, np.array([[2, 1, 0], [0, 1, 0], [0, 0, 1]])), (wfzoo.h_pbc_tri, np.eye(3))]
     worst = 0.0
-    for fx, S in (plans if ck.thorough else plans[:5]):
+    for fx, S in (plans if ck.thorough else plans[:6]):
         cell, mf = fx()
         sup = pyq.get_supercell(cell, S=S)
         L = sup.lattice_vectors()
@@ -213,8 +213,10 @@ def check_pbc(ck):
             frac[2, np.arange(ne), ax] = 0.5                 # on a lattice plane of a doubled cell
             frac[2, 0] = [1 - 1e-9, 1 - 1e-9, 1 - 1e-9]     # one electron in the far corner
             pos = frac @ L
-            shift = ck.rng.integers(-2, 3, size=(ne, 3))
-            pos[3] += shift @ L                                # outside the cell: wrap counters
+            for w in (3, 4):                                   # two configurations outside the cell: non-zero wrap counters in every direction
+                shift = ck.rng.integers(-2, 3, size=(ne, 3))
+                shift[0] = [1, 2, -1] if w == 3 else [-2, 1, 1]
+                pos[w] += shift @ L
             cfg = PeriodicConfigs(pos.copy(), L)
             ok, res = ck.guarded(lambda: Slater(sup, mf, twist=t, eval_gto_precision=1e-8).recompute(cfg), "pbc", S_PBC, inp)
             ck.case(("pbc", fx.__name__, tuple(np.asarray(S).astype(int).ravel().tolist()), t), nontrivial=True)
